@@ -383,7 +383,7 @@ pub fn c06(cx: &Ctx, v: &mut Vec<Violation>) {
                 let e_inv = cx.has_err_on(i, EK::InvalidNumericLiteral);
                 let e_unt = cx.has_err_on(i, EK::UnterminatedHexNumericLiteral);
                 let ok = match ty {
-                    T::IntegerLiteral => (digits(bs) && !e_unt && !e_inv) || (hexrun_x(bs) && !e_unt && !e_inv) || ((e_unt || e_inv) && hexrun(bs)),
+                    T::IntegerLiteral => (digits(bs) && !e_unt && !e_inv) || (hexrun_x(bs) && !e_unt && !e_inv) || (e_unt && hexrun(bs)),
                     T::FloatExponentLiteral => {
                         !e_inv && !e_unt
                             && exp_split(bs).map_or(false, |(m, ex)| {
